@@ -432,6 +432,7 @@ def run(ctx):
         timed('scale-units', wl_scale_units, ctx, R)
         timed('special', wl_special, ctx, R)
         timed('sizes', wl_sizes, ctx, R)
+        timed('backend', wl_backend, ctx, R)
         ctx.note('workload_seconds(first shard)', secs)
     finally:
         config.precision = old
@@ -864,7 +865,7 @@ def wl_masks(ctx, R):
 
 # ------------------------------------------------------------------------------------------ class B: histories
 def relation_step(ctx, R, kind, route, scls, seed, method, in_shape, big, samples, desc0, j, note='after other calls at the same array sizes',
-                  adjoint_first=False):
+                  adjoint_first=False, key_suffix='', band=None):
     """One step of a history: traffic, a float32 run of the same calls, or a relation instance judged at the full float64 tolerance."""
     from prysm.conf import config
     r2 = np.random.default_rng(seed)
@@ -905,7 +906,7 @@ def relation_step(ctx, R, kind, route, scls, seed, method, in_shape, big, sample
         kind = 'embedding'
     if kind == 'embedding':
         g = geom_label(route, method, [in_shape, big], [samples])
-        key = rel_key('embedding', route, method, g, shifted)
+        key = rel_key('embedding', route, method, g, shifted) + key_suffix
 
         def inst(shift_obj):
             f1 = R.fixed(route, a, idx, efl, wvl, odx, samples, shift_obj, method, desc, key)
@@ -915,7 +916,7 @@ def relation_step(ctx, R, kind, route, scls, seed, method, in_shape, big, sample
               desc, rtol=rt, modulus=shifted)
     elif kind == 'transpose':
         g = geom_label(route, method, [in_shape, in_shape[::-1]], [samples, samples[::-1]])
-        key = rel_key('transpose', route, method, g, shifted)
+        key = rel_key('transpose', route, method, g, shifted) + key_suffix
 
         def inst(shift_obj):
             f1 = R.fixed(route, a, idx, efl, wvl, odx, samples, shift_obj, method, desc, key)
@@ -924,7 +925,7 @@ def relation_step(ctx, R, kind, route, scls, seed, method, in_shape, big, sample
         judge(ctx, 'transposition', inst, sh, key, rel_what('transpose', route, method, g) + f' [{note}]',
               desc, rtol=rt)
     elif kind == 'linearity':
-        key = f'C05/linearity/{route}/{method}'
+        key = f'C05/linearity/{route}/{method}' + key_suffix
         b = cnormal(r2, in_shape)
         al, be = complex(*r2.standard_normal(2)), complex(*r2.standard_normal(2))
 
@@ -937,11 +938,11 @@ def relation_step(ctx, R, kind, route, scls, seed, method, in_shape, big, sample
               desc, rtol=rt)
     else:
         # all-pass identity on the exact band with the history's pupil shape; the band size is fixed per history
-        P_ = max(in_shape) + 3
+        P_ = band or (max(in_shape) + 3)
         fdx = wvl * efl / (dx * P_)
         sh2 = ShiftArg('nd-f64' if (hk == 'nd-f32' and method == 'czt') else hk, (s[0] * fdx, s[1] * fdx))
         label = tfb_label(method, in_shape, P_)
-        key = tfb_key(method, label, shifted)
+        key = tfb_key(method, label, shifted) + key_suffix
 
         def inst(shift_obj):
             o = R.tfb(a, dx, efl, wvl, np.ones((P_, P_)), fdx, shift_obj, method, desc, key)
@@ -1522,6 +1523,218 @@ def wl_sizes(ctx, R):
                 judge(ctx, 'allpass-identity', inst, RawShift((0, 0)), key, tfb_what(method, label, False) + ' [band / pupil size within 1e-3 of an integer]', desc, rtol=rt)
                 fttools.mdft.clear()
                 fttools.czt.clear()
+
+
+# ------------------------------------------------------------------------------------------ hardening pass 4: class N (backend configuration)
+RULE = RULE + ('.  Hardening pass 4 -- class N: every law of the module (embedding, transposition, linearity, all-pass identity incl. one-axis mask shifts, mask '
+               'additivity, Babinet) is also run with prysm\'s FFT backend swapped to numpy.fft (prysm.mathops.fft._srcmodule, the documented mechanism; no '
+               'next_fast_len there, so the power-of-two fallback sizes the chirp-z convolution), both methods and routes, on axis pairs enumerated by the class '
+               'of m + M - 1 (exactly a power of two, one above, one below, generic; thin arrays of 63 ... 257 samples), plus backend equivalence: the same call '
+               'under numpy.fft and under the default backend gives the same field (executor caches shared across the swap)')
+ASSUMPTIONS = ASSUMPTIONS + [
+    'the FFT backend is configuration: the reference tree runs every routine of the property under numpy.fft (established on /repo @ 66c5405: all relations '
+    'hold to 1e-12); a call under numpy.fft must satisfy the same relations at the same tolerance and equal the default-backend result to 1e-9 of its maximum',
+]
+REQUIRED = REQUIRED + ['backend.relations', 'backend.equivalence']
+BACKEND_KEY = '/backend:numpy.fft'
+SUM_CLASSES = ('pow2', 'pow2+1', 'pow2-1', 'generic')
+
+
+def is_pow2(t):
+    return t >= 1 and (t & (t - 1)) == 0
+
+
+def sum_pair(rng, cls, lo, hi, ordered=False):
+    """(m, M): input / output length of one axis whose chirp-z convolution length m + M - 1 is of the class (exactly a power of two,
+    one above, one below, none of those); ordered=True asks for M >= m (a band no smaller than the pupil)."""
+    for _ in range(400):
+        m = int(rng.integers(lo, hi + 1))
+        if cls == 'generic':
+            M = int(rng.integers(m if ordered else lo, hi + 6))
+            t = m + M - 1
+            if is_pow2(t) or is_pow2(t - 1) or is_pow2(t + 1):
+                continue
+        else:
+            t = (1 << int(rng.integers(3, 7 if hi > 16 else 6))) + {'pow2': 0, 'pow2+1': 1, 'pow2-1': -1}[cls]
+            M = t + 1 - m
+        if M >= 2 and M <= 3 * hi + 8 and (M >= m or not ordered):
+            return m, M
+    return lo + 1, lo + 3
+
+
+def wl_backend(ctx, R):
+    """Class N: the relations of the module with the FFT backend swapped to numpy.fft, and the same call under both backends."""
+    import numpy.fft as npfft
+    from prysm import fttools
+    from prysm.conf import config
+    from ..util import fft_backend
+    import contextlib
+    import copy
+
+    def backend(on):
+        return fft_backend(npfft) if on else contextlib.nullcontext()
+    kinds = ('embedding', 'transpose', 'linearity', 'allpass', 'equivalence', 'tfb-equivalence', 'masks')
+    fttools.mdft.clear()
+    fttools.czt.clear()
+    config.precision = 64
+    k = -1
+    st = [0]
+    jobs = []
+    for rnd in range(ctx.pick(1, 40)):
+        hi = 12 if rnd < 2 else (16 if rnd < 12 else (24 if rnd < 30 else 32))
+        for kind in kinds:
+            for route in ('focus', 'unfocus'):
+                for method in METHODS:
+                    for scy in SUM_CLASSES:
+                        for scls in SHIFTS:
+                            jobs.append((kind, route, method, scy, scls, hi, None))
+    # thin arrays with a long axis (class I sizes) under the backend
+    for i, nn in enumerate((63, 65, 100, 129, 257)[:ctx.pick(4, 5)]):
+        for route in ('focus', 'unfocus'):
+            for kind in ('embedding', 'linearity', 'equivalence'):
+                jobs.append((kind, route, 'czt', 'generic', SHIFTS[(i + len(jobs)) % 3], 12, nn))
+    for (kind, route, method, scy, scls, hi, thin_n) in jobs:
+        k += 1
+        if not ctx.mine(k):
+            continue
+        _tick(st)
+        rng = case_rng(ctx, 15, k)
+        scx = SUM_CLASSES[int(rng.integers(len(SUM_CLASSES)))]
+        seed = int(rng.integers(2**31 - 1))
+        if thin_n is not None:
+            MM = [thin_n, thin_n + 1, 2 * thin_n, 97][k % 4]
+            if is_pow2(thin_n + MM - 1):
+                MM += 1
+            flip = bool(rng.integers(2))
+            in_shape, samples = ((1, thin_n), (1, MM)) if flip else ((thin_n, 1), (MM, 1))
+            big = tuple(v_ + (int(rng.integers(1, 30)) if v_ == thin_n else 0) for v_ in in_shape)
+            band = None
+            scx = 'thin'
+        elif kind == 'allpass':
+            # square or non-square pupil, one P x P band: both legs have the convolution length n + P - 1 of the class on axis 0
+            m0, P_ = sum_pair(rng, scy, 4, hi, ordered=True)
+            m1 = m0 if rng.random() < 0.5 else int(rng.integers(2, m0 + 1))
+            in_shape, samples, big, band = (m0, m1), (P_, P_), (m0 + 1, m1 + 1), P_
+            if method == 'czt':
+                scls = '0'                 # czt with a mask shift does not round-trip on the reference tree (ledger: C05/to_fpm_and_back/czt/shift!=0)
+        else:
+            (m0, M0), (m1, M1) = sum_pair(rng, scy, 4, hi), sum_pair(rng, scx, 4, hi)
+            in_shape, samples, band = (m0, m1), (M0, M1), None
+            big = (m0 + int(rng.integers(1, 6)), m1 + int(rng.integers(0, 6)))
+        desc0 = {'rel': 'backend-' + kind, 'backend': 'numpy.fft', 'route': route, 'method': method, 'in_shape': in_shape, 'embedded_shape': big, 'samples': samples,
+                 'conv_length_class': [scy, scx], 'shift_class': scls, 'seed': seed, 'k': k,
+                 'class': f'backend:numpy.fft:{kind}:{route}:{method}:m+M-1={scy}/{scx}:shift={scls}'}
+        ctx.case(desc0)
+
+        def step(on, kind=kind, route=route, method=method, scls=scls, k=k, seed=seed, in_shape=in_shape, big=big, samples=samples, band=band, desc0=desc0):
+            if kind in ('embedding', 'transpose', 'linearity', 'allpass'):
+                ctx.observe('backend.relations')
+                with backend(on):
+                    relation_step(ctx, R, kind, route, scls, seed, method, in_shape, big, samples, desc0, 0, note='FFT backend numpy.fft',
+                                  key_suffix=BACKEND_KEY if on else '', band=band)
+                return
+            r2 = np.random.default_rng(seed)
+            wvl, efl, dx = physical(r2)
+            s = draw_shift(r2, scls)
+            default_first = bool(k // ctx.nshards % 2)
+            if kind == 'equivalence':
+                if route == 'focus':
+                    idx, odx = dx, wvl * efl / (max(in_shape) * dx) * logu(r2, 0.3, 2.5)
+                else:
+                    odx, idx = dx, wvl * efl / (max(samples) * dx) * logu(r2, 0.3, 2.5)
+                sh = RawShift(_typed_shift(s, odx))
+                a = cnormal(r2, in_shape) if k % 3 else r2.standard_normal(in_shape)
+                desc = dict(desc0, input_dx=idx, output_dx=odx, efl=efl, wavelength=wvl, shift_samples=s, default_backend_first=default_first)
+                key = f'C05/backend-equivalence/{route}/{method}' + (BACKEND_KEY if on else '')
+                use_wf = bool(k // ctx.nshards % 3 == 1)
+
+                def call():
+                    return R.fixed(route, a, idx, efl, wvl, odx, samples, sh.obj, method, desc, key, use_wf)
+                Qp = tuple(wvl * efl / (n_ * idx * odx) for n_ in in_shape)
+                eps = float(np.finfo(np.float64).eps)
+                rt = max(RTOL, 1000 * eps * kernel_phase(method, in_shape, Qp, samples, (float(s[0]), float(s[1]))))
+                what = f'{route}_fixed_sampling(method={method}) under the numpy.fft FFT backend differs from the default backend'
+            else:
+                mshape = samples
+                fdx = wvl * efl / (max(in_shape) * dx) * logu(r2, 0.3, 2.5)
+                sh = RawShift(_typed_shift(s, fdx))
+                a = cnormal(r2, in_shape)
+                m1_ = cnormal(r2, mshape) if k % 3 else r2.random(mshape)
+                desc = dict(desc0, mask_shape=mshape, dx=dx, fpm_dx=fdx, efl=efl, wavelength=wvl, shift_samples=s, default_backend_first=default_first)
+                use_wf = bool(k // ctx.nshards % 3 == 1)
+                rt = RTOL
+                if kind == 'tfb-equivalence':
+                    key = f'C05/backend-equivalence/to_fpm_and_back/{method}' + (BACKEND_KEY if on else '')
+
+                    def call():
+                        return R.tfb(a, dx, efl, wvl, m1_, fdx, sh.obj, method, desc, key, use_wf)
+                    what = f'to_fpm_and_back(method={method}) under the numpy.fft FFT backend differs from the default backend'
+                else:
+                    # mask additivity and Babinet composition under the backend
+                    comp = 1 - m1_
+                    one = np.ones(mshape)
+                    lyot = None if k % 2 else (r2.random(in_shape) > 0.3).astype(float)
+                    with backend(on):
+                        ctx.observe('backend.relations')
+                        key = f'C05/mask-additivity/{method}' + (BACKEND_KEY if on else '')
+
+                        def inst(shift_obj):
+                            t1 = R.tfb(a, dx, efl, wvl, m1_, fdx, shift_obj, method, desc, key, use_wf)
+                            t2 = R.tfb(a, dx, efl, wvl, comp, fdx, shift_obj, method, desc, key, use_wf)
+                            t3 = R.tfb(a, dx, efl, wvl, one, fdx, shift_obj, method, desc, key, use_wf)
+                            if t1 is None or t2 is None or t3 is None:
+                                return None
+                            return t1 + t2, t3, max(float(np.max(np.abs(t3))), float(np.max(np.abs(t1))))
+                        judge(ctx, 'mask-additivity', inst, sh, key,
+                              f'to_fpm_and_back(method={method}): mask and complement do not sum to the unmasked result [FFT backend numpy.fft]', desc)
+                        key = f'C05/babinet/{method}' + (BACKEND_KEY if on else '')
+
+                        def inst(shift_obj):
+                            t = R.tfb(a, dx, efl, wvl, comp, fdx, (0, 0), method, desc, key)
+                            out = [None]
+                            with ctx.guard(key, desc, what=f'Wavefront.babinet(method={method})'):
+                                out[0] = np.array(R.P.Wavefront(a, wvl, dx).babinet(efl, lyot, m1_, fdx, method=method).data, copy=True)
+                            if t is None or out[0] is None:
+                                return None
+                            return out[0], (a - t) if lyot is None else lyot * (a - t), float(np.max(np.abs(a))) + float(np.max(np.abs(t)))
+                        judge(ctx, 'babinet', inst, RawShift((0, 0)), key,
+                              f'Wavefront.babinet(method={method}) != lyot * (field - to_fpm_and_back(1 - fpm)) [FFT backend numpy.fft]', desc)
+                    return
+            # backend equivalence: the same call under the default backend and under numpy.fft, caches shared across the swap
+            if default_first:
+                f0 = call()
+            with backend(on):
+                f1 = call()
+            if not default_first:
+                f0 = call()
+            if f0 is None or f1 is None:
+                return
+
+            def inst(shift_obj):
+                return f1, f0, None
+            judge(ctx, 'backend.equivalence', inst, sh, key, what, desc, rtol=rt)
+
+        # one mechanism, one key: a step that fails under numpy.fft is re-run under the default backend; if it holds there the backend is the
+        # cause (the keys of the first run are replaced by one key per method), otherwise the ordinary keys of the control run are kept
+        before = copy.deepcopy(ctx.violations)
+        step(True)
+        changed = sorted(k_ for k_, v_ in ctx.violations.items() if v_['count'] != before.get(k_, {'count': 0})['count'])
+        if changed:
+            first = ctx.violations[changed[0]]
+            text, wit = first['what'], (first['witnesses'][-1]['detail'] if first['witnesses'] else {})
+            ctx.violations.clear()
+            ctx.violations.update(copy.deepcopy(before))
+            fttools.mdft.clear()
+            fttools.czt.clear()
+            step(False)
+            again = [k_ for k_, v_ in ctx.violations.items() if v_['count'] != before.get(k_, {'count': 0})['count']]
+            if not again:
+                ctx.violation(f'C05/backend:numpy.fft/{method}/relation-holds-under-the-default-backend-only',
+                              f'method={method} with the FFT backend swapped to numpy.fft (prysm.mathops.fft._srcmodule): a relation of the property / the equality with the '
+                              f'default-backend result fails, and holds for the same calls under the default backend.  First seen as [{changed[0]}] ' + text,
+                              desc0, first_keys=changed[:6], first_detail=wit)
+    fttools.mdft.clear()
+    fttools.czt.clear()
 
 
 def shape_kind_(shp):
